@@ -149,7 +149,7 @@ Section NoFabrication.
   Lemma upgrade_proof_from ix is_seek from to sub_tree p p' :
     lp_all P p -> upgrade_proof t tf ix is_seek from to sub_tree p = Ok p' -> lp_all P p'.
   Proof.
-    intros Hp H. unfold upgrade_proof in H.
+    intros Hp. unfold upgrade_proof. intros H. (* unfold in the goal: keeps Qed from unrolling CLIMB *)
     apply bind_ok in H. destruct H as ([[p1 acc] has] & H1 & H). injection H as <-.
     destruct (upgrade_loop_from _ _ _ _ _ _ _ _ _ _ _ _ _ _ Hp (Forall_nil _) H1) as ((A1 & A2 & A3 & A4) & B).
     destruct has; unfold lp_all; cbn [lp_seek lp_nodes lp_upgrade lp_additional opt_all]; tauto.
@@ -158,7 +158,7 @@ Section NoFabrication.
   Lemma additional_upgrade_proof_from from to p p' :
     lp_all P p -> additional_upgrade_proof t tf from to p = Ok p' -> lp_all P p'.
   Proof.
-    intros Hp H. unfold additional_upgrade_proof in H.
+    intros Hp. unfold additional_upgrade_proof. intros H.
     apply bind_ok in H. destruct H as ([[p1 acc] has] & H1 & H). injection H as <-.
     destruct (upgrade_loop_from _ _ _ _ _ _ _ _ _ _ _ _ _ _ Hp (Forall_nil _) H1) as ((A1 & A2 & A3 & A4) & B).
     destruct has; unfold lp_all; cbn [lp_seek lp_nodes lp_upgrade lp_additional opt_all]; tauto.
@@ -270,4 +270,225 @@ Proof.
     split; [intros h Hh; apply (Bh h Hh)|].
     split; [intros s Hs; apply (S s Hs)|].
     split; [intros u Hu; apply (U1 u Hu) | exact U2].
+Qed.
+
+(* Corollary with Core: a created proof carries the valueless proof's nodes, and its block value is
+   what core_get returned for that index (None = block not held: no proof) *)
+Theorem core_create_proof_inv block hash seek upgrade c w c' w' r :
+  core_create_proof block hash seek upgrade c w = (c', w', Ok r) ->
+  exists vp,
+    create_valueless_proof (c_tree c) (d_tree (w_disk w)) block hash seek upgrade = Ok vp /\
+    vp_all (from_writer (c_tree c) (d_tree (w_disk w))) vp /\
+    match vp_block vp with
+    | Some b =>
+        exists v, core_get (dh_index b) c w = (c', w', Ok v) /\
+          r = match v with
+              | None => None
+              | Some value =>
+                  Some (mkProof (vp_fork vp) (Some (mkDataBlock (dh_index b) value (dh_nodes b)))
+                          (vp_hash vp) (vp_seek vp) (vp_upgrade vp))
+              end
+    | None =>
+        c' = c /\ w' = w /\
+        r = Some (mkProof (vp_fork vp) None (vp_hash vp) (vp_seek vp) (vp_upgrade vp))
+    end.
+Proof.
+  unfold core_create_proof. rewrite mbind_get_core, mbind_get_disk, mbind_lift.
+  destruct (create_valueless_proof (c_tree c) (d_tree (w_disk w)) block hash seek upgrade) as [vp| | |] eqn:E;
+    intros H; try (inversion H; fail).
+  exists vp. split; [reflexivity|]. split; [apply (create_proof_no_fabrication _ _ _ _ _ _ _ E)|].
+  destruct (vp_block vp) as [b|].
+  - mstep H. exists a. split.
+    + destruct a as [value|]; prim_inv H; exact Hm.
+    + destruct a as [value|]; prim_inv H; reflexivity.
+  - prim_inv H. auto.
+Qed.
+
+(* ====================================================================================== *)
+(* R2. block-only requests                                                                 *)
+(* ====================================================================================== *)
+
+(* ---------- the upward path of an iterator ---------- *)
+
+(* indices of the siblings met while climbing m levels from it *)
+Fixpoint sib_indices (m : nat) (it : fiter) : list N :=
+  match m with
+  | O => []
+  | S m' => it_index (it_sibling it) :: sib_indices m' (it_parent (it_sibling it))
+  end.
+
+Lemma sib_indices_length m : forall it, length (sib_indices m it) = m.
+Proof. induction m as [|m IH]; intros it; cbn [sib_indices length]; [reflexivity | now rewrite IH]. Qed.
+
+Lemma sib_indices_nth m : forall it k, (k < m)%nat ->
+  nth_error (sib_indices m it) k = Some (it_index (it_sibling (it_up_n k it))).
+Proof.
+  induction m as [|m IH]; intros it k Hk; [lia|].
+  destruct k as [|k]; cbn [sib_indices nth_error it_up_n]; [reflexivity|]. apply IH. lia.
+Qed.
+
+(* k-th element of a list related by Forall2 *)
+Lemma Forall2_nth {A B} (R : A -> B -> Prop) : forall la lb k b,
+  Forall2 R la lb -> nth_error lb k = Some b -> exists a, nth_error la k = Some a /\ R a b.
+Proof.
+  intros la lb k b H. revert k. induction H as [|x y la lb Hxy H IH]; intros k Hk.
+  - destruct k; discriminate Hk.
+  - destruct k as [|k]; cbn [nth_error] in *.
+    + injection Hk as <-. exists x. auto.
+    + apply IH. exact Hk.
+Qed.
+
+Lemma it_up_n_S k : forall it, it_up_n (S k) it = it_parent (it_sibling (it_up_n k it)).
+Proof. induction k as [|k IH]; intros it; [reflexivity|]. cbn [it_up_n] in *. now rewrite <- IH. Qed.
+
+Lemma wf_up_n k : forall it, wf it -> wf (it_up_n k it).
+Proof. induction k as [|k IH]; intros it H; cbn [it_up_n]; [exact H|]. apply IH, wf_parent, wf_sibling, H. Qed.
+
+(* the prover's nodes_to_root climbs with it_parent alone, block_proof_loop and the verifier with
+   it_parent after it_sibling: the same thing on well-formed iterators *)
+Lemma it_up_up_n k : forall it, wf it -> it_up k it = it_up_n k it.
+Proof.
+  induction k as [|k IH]; intros it H; cbn [it_up it_up_n]; [reflexivity|].
+  rewrite (it_parent_sibling it H). apply IH, wf_parent, H.
+Qed.
+
+(* positions: after k levels the iterator sits at depth d + k *)
+Lemma it_step_at d o : exists o', it_parent (it_sibling (it_at d o)) = it_at (d + 1) o'.
+Proof.
+  rewrite (it_parent_sibling _ (wf_at d o)), it_parent_at. eexists. reflexivity.
+Qed.
+
+Lemma it_up_n_at k : forall d o, exists o', it_up_n k (it_at d o) = it_at (d + N.of_nat k) o'.
+Proof.
+  induction k as [|k IH]; intros d o; cbn [it_up_n].
+  - exists o. f_equal. lia.
+  - destruct (it_step_at d o) as [o1 ->]. destruct (IH (d + 1) o1) as [o2 ->].
+    exists o2. f_equal. lia.
+Qed.
+
+Lemma it_at_index_inj d o d' o' : it_index (it_at d o) = it_index (it_at d' o') -> d = d' /\ o = o'.
+Proof. unfold it_at. cbn [it_index]. apply ft_index_inj. Qed.
+
+(* the indices along an upward path are pairwise different *)
+Lemma it_up_n_index_neq k it0 : (0 < k)%nat -> (exists d o, it0 = it_at d o) ->
+  it_index it0 <> it_index (it_up_n k it0).
+Proof.
+  intros Hk (d & o & ->). destruct (it_up_n_at k d o) as [o' ->].
+  intros E. apply it_at_index_inj in E. lia.
+Qed.
+
+Lemma it_new_is_at i : exists d o, it_new i = it_at d o.
+Proof. exists (ft_depth i), (ft_offset i). apply it_new_at. Qed.
+
+Lemma it_step_is_at it : (exists d o, it = it_at d o) -> exists d o, it_parent (it_sibling it) = it_at d o.
+Proof. intros (d & o & ->). destruct (it_step_at d o) as [o' E]. eauto. Qed.
+
+(* ---------- the prover ---------- *)
+
+Lemma nodes_to_root_loop_inv fuel : forall it rem head r,
+  nodes_to_root_loop fuel it rem head = Ok r ->
+  r = it_index (it_up (N.to_nat rem) it) /\ (N.to_nat rem < fuel)%nat /\
+  (forall j, (0 < j <= N.to_nat rem)%nat -> it_contains (it_up j it) head = false).
+Proof.
+  induction fuel as [|f IH]; intros it rem head r H; [discriminate H|].
+  cbn [nodes_to_root_loop] in H. destruct (rem =? 0) eqn:E.
+  - injection H as <-. apply N.eqb_eq in E. subst rem. cbn [N.to_nat it_up].
+    repeat split; [lia|]. intros j Hj. lia.
+  - destruct (it_contains (it_parent it) head) eqn:Ec; [discriminate H|].
+    apply IH in H. destruct H as (-> & Hf & Hc).
+    assert (En : N.to_nat rem = S (N.to_nat (rem - 1))) by lia.
+    rewrite En. cbn [it_up]. repeat split; [lia|].
+    intros j Hj. destruct j as [|j]; [lia|]. cbn [it_up].
+    destruct j as [|j]; [exact Ec|]. apply (Hc (S j)). lia.
+Qed.
+
+(* the converse: enough fuel and no ancestor containing the head *)
+Lemma nodes_to_root_loop_ok fuel : forall it rem head,
+  (N.to_nat rem < fuel)%nat ->
+  (forall j, (0 < j <= N.to_nat rem)%nat -> it_contains (it_up j it) head = false) ->
+  nodes_to_root_loop fuel it rem head = Ok (it_index (it_up (N.to_nat rem) it)).
+Proof.
+  induction fuel as [|f IH]; intros it rem head Hf Hc; [lia|].
+  cbn [nodes_to_root_loop]. destruct (rem =? 0) eqn:E.
+  - apply N.eqb_eq in E. subst rem. reflexivity.
+  - assert (En : N.to_nat rem = S (N.to_nat (rem - 1))) by lia.
+    assert (H1 : it_contains (it_parent it) head = false) by (apply (Hc 1%nat); lia).
+    rewrite H1, En. cbn [it_up]. apply IH; [lia|].
+    intros j Hj. apply (Hc (S j)). lia.
+Qed.
+
+(* block_proof_loop without a seek: climbs exactly the m levels up to the root, pushing the
+   writer's node at each sibling position *)
+Lemma block_proof_loop_shape (t : mtree) (tf : file) fuel : forall m it root sr p acc p' l,
+  (exists d o, it = it_at d o) ->
+  root = it_index (it_up_n m it) ->
+  block_proof_loop fuel t tf it root false sr p acc = Ok (p', l) ->
+  p' = p /\ exists sibs, l = rev acc ++ sibs /\
+    Forall2 (fun idx n => required_node t tf idx = Ok n) (sib_indices m it) sibs.
+Proof.
+  induction fuel as [|f IH]; intros m it root sr p acc p' l Hat Hr H; [discriminate H|].
+  cbn [block_proof_loop andb] in H. destruct (it_index it =? root) eqn:E.
+  - injection H as <- <-. split; [reflexivity|]. exists []. rewrite app_nil_r. split; [reflexivity|].
+    destruct m as [|m]; [constructor|]. exfalso. apply N.eqb_eq in E. subst root.
+    apply (it_up_n_index_neq (S m) it); [lia | exact Hat | exact E].
+  - destruct m as [|m]; [cbn [it_up_n] in Hr; lia|].
+    apply bind_ok in H. destruct H as (n & Hn & H).
+    apply (IH m) in H; [|apply it_step_is_at, Hat | exact Hr].
+    destruct H as (-> & sibs & -> & HF). split; [reflexivity|].
+    exists (n :: sibs). cbn [rev]. rewrite <- app_assoc. split; [reflexivity|].
+    cbn [sib_indices]. constructor; assumption.
+Qed.
+
+(* the shape of a block-only proof *)
+Theorem block_only_proof_shape t tf i nodes vp :
+  create_valueless_proof t tf (Some (mkReqBlock i nodes)) None None None = Ok vp ->
+  exists ns,
+    vp = mkVproof (t_fork t) (Some (mkDataHash i ns)) None None None /\
+    length ns = N.to_nat nodes /\
+    Forall2 (fun idx n => required_node t tf idx = Ok n)
+            (sib_indices (N.to_nat nodes) (it_new (2 * i))) ns /\
+    (forall k n, nth_error ns k = Some n ->
+       required_node t tf (it_index (it_sibling (it_up_n k (it_new (2 * i))))) = Ok n) /\
+    nodes_to_root (2 * i) nodes (2 * t_length t)
+      = Ok (it_index (it_up_n (N.to_nat nodes) (it_new (2 * i)))) /\
+    (forall j, (0 < j <= N.to_nat nodes)%nat ->
+       it_contains (it_up_n j (it_new (2 * i))) (2 * t_length t) = false) /\
+    fits_u64 (i * 2) = true /\ 0 < t_length t.
+Proof.
+  unfold create_valueless_proof, normalize_indexed, mul64. cbn [bind rb_index rb_nodes].
+  destruct (fits_u64 (i * 2)) eqn:F; [|discriminate]. cbn [bind].
+  destruct ((2 * t_length t <=? 0) || (2 * t_length t <? 2 * t_length t)) eqn:E0; [discriminate|].
+  cbn [andb ix_index ix_nodes ix_value ix_last]. rewrite (N.mul_comm i 2).
+  intros H.
+  apply bind_ok in H. destruct H as ([[sub_tree p0] untrusted] & H0 & H).
+  apply bind_ok in H0. destruct H0 as (sub & Hsub & H0). cbn [bind] in H0.
+  apply bind_ok in H0. destruct H0 as (p1 & H1 & H0). injection H0 as <- <- <-.
+  cbn [negb bind] in H.
+  (* nodes_to_root *)
+  pose proof Hsub as Hsub0.
+  unfold nodes_to_root in Hsub. apply nodes_to_root_loop_inv in Hsub.
+  destruct Hsub as (Es & _ & Hc).
+  assert (Eup : forall j, it_up j (it_new (2 * i)) = it_up_n j (it_new (2 * i)))
+    by (intros j; apply it_up_up_n, wf_new).
+  rewrite Eup in Es.
+  (* block_and_seek_proof *)
+  unfold block_and_seek_proof in H1. cbn [ix_index ix_value] in H1.
+  destruct (negb (it_contains (it_new sub) (2 * i))); [discriminate H1|]. cbn [bind] in H1.
+  apply bind_ok in H1. destruct H1 as ([p' l] & Hl & H1). injection H1 as <-.
+  apply (block_proof_loop_shape t tf CLIMB (N.to_nat nodes)) in Hl;
+    [|apply it_new_is_at | exact Es].
+  destruct Hl as (-> & sibs & -> & HF). cbn [rev app] in *.
+  cbn [lp_nodes lp_seek lp_upgrade lp_additional lp_empty bind] in H. injection H as <-.
+  exists sibs. split; [reflexivity|].
+  pose proof (Forall2_length HF) as HL. rewrite sib_indices_length in HL.
+  split; [now symmetry|]. split; [exact HF|].
+  split.
+  { intros k n Hk. destruct (Forall2_nth _ _ _ _ _ HF Hk) as (idx & Hi & Hr).
+    rewrite sib_indices_nth in Hi.
+    - injection Hi as <-. exact Hr.
+    - apply nth_error_Some. rewrite sib_indices_length. rewrite HL.
+      apply nth_error_Some. rewrite Hk. discriminate. }
+  split; [now rewrite Hsub0, Es|].
+  split; [intros j Hj; rewrite <- Eup; apply Hc, Hj|].
+  split; [reflexivity|]. apply orb_false_iff in E0. lia.
 Qed.
